@@ -14,9 +14,15 @@ from pyvc.values import SV, STR, INT, BOOL, FRAC, TNT, TSeq, TEnum, TIntEnum, te
 from pyvc.execu import HObj, NTVal, LoopSpec, yield_slot, seq_of_items
 from contracts import engine_abs as EA
 
-LEVEL = "proof"
+LEVEL = "other"
+EXPLANATION = ("Proved (SMT, all inputs, all stream lengths): time_notes yields, note by note and in order, TimedNote(time_at(beat), note) for hittable or kept notes, "
+               "a fake differing from the original in nothing but the note type for unhittable taps under TAP_TO_FAKE, and nothing otherwise (loop invariant over "
+               "a prefix spec function; the engine abstracted by callee contracts); TimingEngine.hittable returns False exactly when the state in force after "
+               "everything on that beat is inside a warp and no stop/delay ends on that beat. Bounded (never counted as proved): that this state-list reading "
+               "equals the statement's 'inside the union of warp segments and no stop or delay on the beat', on every tick of every small configuration.")
 TRUSTED = [
     "callee contracts: TimingEngine.hittable / time_at are functions of (engine, beat, tag); NoteData.__iter__ yields a Note sequence",
+    "T-STD: bisect local-boundary contract; SM_inv for the engine's state list",
     "NamedTuple construction/equality as generated datatypes (fields, order and defaults read from the real classes)",
     "pyvc VC generator; z3/cvc5",
 ]
@@ -157,10 +163,21 @@ def replay_time_notes(note_dicts, opt_name, hittable):
                 command="list(time_notes(notes, timing_data, option)) with the warps above")
 
 
-UNITS = [TimeNotes()]
+from props.engine_common import Lookup, EngineVsStatement
+
+UNITS = [TimeNotes(), Lookup("hittable")]
+BOUNDED = [EngineVsStatement("hittable", k) for k in range(EngineVsStatement.PARTS)]
 
 
 def witness_search(tier, seed):
+    for k in range(EngineVsStatement.PARTS):
+        r = EngineVsStatement("hittable", k).run("quick", seed)
+        if r["failures"]:
+            return r["failures"][0]
+    return _notes_witness(tier, seed)
+
+
+def _notes_witness(tier, seed):
     import itertools
     n, t, e = types()
     from simfile.timing import Beat
